@@ -20,7 +20,12 @@ MCTemplates == { <<Lit(<<97>>)>>,                     \*  /a
 MCSinkPats  == { <<Tok("lit", <<47>>)>>,                                          \*  /
                  <<Tok("lit", <<47, 97>>)>>,                                      \*  /a        (also matches /ab)
                  <<Tok("lit", <<47, 97, 47>>), Tok("digits", <<105, 100>>)>>,     \*  /a/(?P<id>\d+)
-                 <<Tok("lit", <<47>>), Tok("seg", <<120>>), Tok("lit", <<47, 98>>)>> }   \*  /(?P<x>[^/]+)/b
+                 \*  /(?P<x>[^/]+)/(b|1)       a named group, then an unnamed one
+                 <<Tok("lit", <<47>>), Tok("seg", <<120>>), Tok("lit", <<47>>), Tok("ualt", <<98, 124, 49>>)>>,
+                 \*  /a/(?P<id>\d+)(/REST)?$   (REST = dot star)  a trailing unnamed group that takes part for some paths only
+                 <<Tok("lit", <<47, 97, 47>>), Tok("digits", <<105, 100>>), Tok("optrest", <<>>)>>,
+                 \*  /(a|b)/(\d+)              unnamed groups only: no keyword arguments
+                 <<Tok("lit", <<47>>), Tok("ualt", <<97, 124, 98>>), Tok("lit", <<47>>), Tok("udigits", <<>>)>> }
 MCStaticPrefixes == { <<47, 97>>, <<47, 97, 47, 98>> }                            \*  /a   /a/b
 
 (* resources: responders without suffix / with suffix "s" *)
@@ -71,7 +76,7 @@ InvAllowExact          == ForAllRequests(AllowExact)
 InvSuffixIsolation     == ForAllRequests(SuffixIsolation)
 InvKwargsAreFields     == ForAllRequests(KwargsAreFields)
 InvMetaRefused         == ForAllRequests(MetaRefused)
-InvConflictFree        == ConflictFree(routes)
+InvConflictFree        == ConflictFree(routes) /\ \A i \in 1..Len(sinks) : WellFormedSink(sinks[i].pat)
 
 Keep == UNCHANGED h
 Log  == h' = Append(h, last')
